@@ -117,8 +117,54 @@ LongArrays == {ArrV(Rep(sq, 8)) : sq \in {
 OpsLong == {TPipe(VA, TC0("sort")), TPipe(VA, TC0("unique")), TPipe(VA, TC1("group_by", TId)), TPipe(VA, TC1("sort_by", TBin("<", TId, TNum(2)))),
             TPipe(VA, TC1("unique_by", TBin("<", TId, TNum(2)))), TPipe(VA, TArr(TComma(TC0("min"), TC0("max"))))}
 
+-----------------------------------------------------------------------------
+(* C09: exact integers at any size, operator rules, integer consumers *)
+Dg(n) == NatDigits(n)
+P63  == << 9,2,2,3,3,7,2,0,3,6,8,5,4,7,7,5,8,0,8 >>          \* 2^63
+P63m == << 9,2,2,3,3,7,2,0,3,6,8,5,4,7,7,5,8,0,7 >>          \* 2^63 - 1
+P63p == << 9,2,2,3,3,7,2,0,3,6,8,5,4,7,7,5,8,0,9 >>          \* 2^63 + 1
+P62  == << 4,6,1,1,6,8,6,0,1,8,4,2,7,3,8,7,9,0,4 >>          \* 2^62
+P64  == << 1,8,4,4,6,7,4,4,0,7,3,7,0,9,5,5,1,6,1,6 >>        \* 2^64
+P70  == << 1,1,8,0,5,9,1,6,2,0,7,1,7,4,1,1,3,0,3,4,2,4 >>    \* 2^70
+R63  == << 3,0,3,7,0,0,0,5,0,0 >>                            \* just above sqrt(2^63)
+P32  == << 4,2,9,4,9,6,7,2,9,6 >>                            \* 2^32
+\* integer literals: jaq reads them as machine integers when they fit, as big integers otherwise
+Lits9 == {TBig(n, d) : n \in BOOLEAN, d \in {<< 1 >>, << 2 >>, << 3 >>, << 7 >>, P32, R63, P62, P63m, P63, P63p, P64, P70}} \cup {TBig(FALSE, <<>>)}
+ArithOps == {"+", "-", "*", "%", "==", "<", "/"}
+\* every kind of value
+Kinds9 == {Null, True, IntV(0), IntV(1), IntV(2), IntV(-3), FltV(3, 2), FltV(0, 1), StrV(<<>>), StrV(<< 97 >>), StrV(<< 97, 98, 97 >>), BytesV(<< 97 >>),
+           ArrV(<<>>), ArrV(<< IntV(1) >>), ArrV(<< IntV(1), IntV(2), IntV(1) >>),
+           ObjV(<<>>), ObjV(<< << StrV(<< 97 >>), IntV(1) >>, << StrV(<< 98 >>), ObjV(<< << StrV(<< 99 >>), IntV(1) >> >>) >> >>),
+           ObjV(<< << StrV(<< 98 >>), ObjV(<< << StrV(<< 100 >>), IntV(2) >> >>) >>, << StrV(<< 99 >>), IntV(3) >> >>),
+           BigV(FALSE, P70), BigV(FALSE, << 2 >>)}
+\* the same integer as machine integer and as big integer; huge ones
+Ints9 == {IntV(n) : n \in -3..4} \cup {BigV(n < 0, Dg(IF n < 0 THEN -n ELSE n)) : n \in -3..4} \cup {BigV(FALSE, P70), BigV(TRUE, P70), IntV(65), BigV(FALSE, << 6, 5 >>)}
+N9 == TVar("n")
+ConsumerOps == {
+  TPipe(TArr(TComma(TNum(10), TComma(TNum(20), TNum(30)))), TArr(TComma(TAt(N9), TComma(TPath(TId, << PFrom(N9) >>), TPath(TId, << PUpto(N9) >>))))),
+  TPipe(TStr(<< 97, 228, 99 >>), TArr(TComma(TPath(TId, << PFrom(N9) >>), TPath(TId, << PUpto(N9) >>)))),
+  TPipe(TPipe(TStr(<< 97, 98, 99 >>), TC0("tobytes")), TArr(TComma(TAt(N9), TPath(TId, << PFrom(N9) >>)))),
+  TArr(TC2("limit", N9, TComma(TNum(1), TComma(TNum(2), TNum(3))))),
+  TArr(TC2("skip", N9, TComma(TNum(1), TComma(TNum(2), TNum(3))))),
+  TArr(TC2("limit", TNum(6), TC1("range", N9))),
+  TArr(TC2("limit", TNum(6), TCall("range", << TNum(0), TNum(5), N9 >>))),
+  TArr(TC2("nth", N9, TComma(TNum(1), TComma(TNum(2), TNum(3))))),
+  TBin("*", TStr(<< 97, 98 >>), N9),
+  TBin("*", N9, TStr(<< 97, 98 >>)),
+  TPipe(TArr(TComma(TNum(10), TComma(TNum(20), TNum(30)))), TBin("|=", TAt(N9), TArr(TId))),
+  TPipe(TArr(TComma(TNum(10), TComma(TNum(20), TNum(30)))), TC1("has", N9)),
+  TPipe(TArr(N9), TC0("implode")),
+  TArr(TComma(TBin("==", N9, TNum(2)), TComma(TBin("<", N9, TNum(2)), TBin(">=", N9, TNeg(TNum(1)))))),
+  TPipe(TObj(<< TE(N9, TNum(1)), TE(TStr(<< 120 >>), TNum(2)) >>), TArr(TComma(TC1("has", TNum(2)), TAt(TNum(0))))),
+  TArr(TComma(TBin("+", N9, TNum(1)), TComma(TBin("%", TNum(7), N9), TComma(TNeg(N9), TPipe(N9, TC0("length"))))))
+}
+
 Cases ==
-  CASE Suite = "order-triples" -> {<< p, << << "a", a >>, << "b", b >>, << "c", c >> >> >> : p \in Ops8T, a \in NumAtoms, b \in NumAtoms, c \in NumAtoms}
+  CASE Suite = "arith-int" -> {<< TBin(op, a, b), <<>> >> : op \in ArithOps, a \in Lits9, b \in Lits9} \cup {<< TNeg(a), <<>> >> : a \in Lits9}
+    [] Suite = "arith-kinds" -> {<< TBin(op, VA, VB), << << "a", a >>, << "b", b >> >> >> : op \in {"+", "-", "*", "/", "%"}, a \in Kinds9, b \in Kinds9}
+                                 \cup {<< TNeg(VA), << << "a", a >> >> >> : a \in Kinds9}
+    [] Suite = "int-consumers" -> {<< p, << << "n", n >> >> >> : p \in ConsumerOps, n \in Ints9}
+    [] Suite = "order-triples" -> {<< p, << << "a", a >>, << "b", b >>, << "c", c >> >> >> : p \in Ops8T, a \in NumAtoms, b \in NumAtoms, c \in NumAtoms}
     [] Suite = "order-long" -> {<< p, << << "a", a >> >> >> : p \in OpsLong, a \in LongArrays}
     [] Suite = "order-pairs" -> {<< p, << << "a", a >>, << "b", b >> >> >> : p \in Ops8, a \in Atoms8, b \in Atoms8}
     [] Suite = "pos-read" ->
